@@ -70,7 +70,7 @@ func c09Layout(r *rand.Rand, k int) c09layout {
 		sort.Strings(fs)
 		return c09layout{files: fs, patterns: []string{"c*/part.yaml"}}
 	case 2: // one glob in one directory, upper/lower case and punctuation
-		names := []string{"a.yaml", "B.yaml", "b.yaml", "a-b.yaml", "a_b.yaml", "A.yaml", "ab.yaml", "a.b.yaml", "a,b.yaml", "a b.yaml", "a=b.yaml"}
+		names := []string{"a.yaml", "B.yaml", "b.yaml", "a-b.yaml", "a_b.yaml", "A.yaml", "ab.yaml", "a.b.yaml", "a,b.yaml", "a b.yaml", "a=b.yaml", "*.yaml", "a[1].yaml", "?.yaml"}
 		r.Shuffle(len(names), func(i, j int) { names[i], names[j] = names[j], names[i] })
 		var fs []string
 		for i := 0; i < k; i++ {
